@@ -4,7 +4,7 @@ EXPLANATION = ("Real schema.NewProcessBuilder / AddActivity / link / Out and New
                "whether it carries a preset id are solver variables; the produced process is walked through its STORED elements.")
 ASSUMPTIONS = ["RandBytes replaced by a counter: randomly generated ids are assumed pairwise distinct (uniqueness of random ids is probabilistic and not claimed)",
                "sort.Slice replaced by an insertion sort over the same less function",
-               "layout configurations range over four listed concrete configurations incl. the documented defaults and one whose gaps equal the largest node sizes (floating point is executed concretely, not symbolically)",
+               "layout configurations range over five listed concrete configurations incl. the documented defaults, one whose gaps equal the largest node sizes and one with all gaps zero (floating point is executed concretely, not symbolically)",
                "XML round trip and execution of the built model are not decided here"]
 H = "schema"
 OV = {"github.com/olive-io/bpmn/schema.RandBytes": "verifRandBytes", "sort.Slice": "verifSortSlice"}
@@ -24,8 +24,11 @@ def b(p, k, tiers=("quick", "thorough")):
                 overrides=OV, reach=["laid out", "checked"], tiers=tiers, max_instr=5000000,
                 expect_obligations=["no two shapes overlap when the gaps are at least the node sizes", "every edge starts on its source shape",
                                     "exactly one shape per flow node", "exactly one edge per sequence flow"],
-                bounds="%d processes x %d activities each, 4 layout configurations" % (p, k))
+                bounds="%d processes x %d activities each, 5 layout configurations (incl. all gaps zero: finiteness only)" % (p, k))
 
 
-SCENARIOS = [a(0, 1), a(1, 10), a(2, 4), a(3, 2), a(5, 1), a(3, 3, ("thorough",)), a(4, 2, ("thorough",)), a(9, 1, ("thorough",)),
+REUSE = dict(a(2, 2), name="C19.a builder reused after Out()", entry="VerifC19a_Reuse_K2",
+             bounds="one ProcessBuilder used for two processes (1 and 2 activities over 2 types x preset ids)")
+REUSE_L = dict(b(2, 1), name="C19.b layout, builder reused", entry="VerifC19b_P2_K1_Reuse", bounds="2 processes from one reused builder, 5 layout configurations")
+SCENARIOS = [REUSE, REUSE_L, a(0, 1), a(1, 10), a(2, 4), a(3, 2), a(5, 1), a(3, 3, ("thorough",)), a(4, 2, ("thorough",)), a(9, 1, ("thorough",)),
              b(1, 2), b(2, 1), b(3, 1), b(3, 2, ("thorough",))]
